@@ -250,8 +250,7 @@ pub fn c01_check(cfg: &Cfg, rep: &mut Report, case_seed: u64, case: &SmallCase) 
 
 pub fn large_case(case_seed: u64) -> (GenAdf, String, BigSem) {
     let mut rng = Rng::new(case_seed);
-    // (every fourth large case has 130 to 260 statements: variable numbers beyond 7 and 8 bits)
-    let n = if case_seed % 4 == 3 { rng.range(130, 260) } else { rng.range(30, 60) };
+    let n = rng.range(30, 60);
     let cyclic = rng.range(0, 8);
     let depth = rng.range(2, 5);
     let g = gen_large(&mut rng, n, 8, cyclic, depth);
